@@ -87,11 +87,11 @@ impl Scenario for C02 {
             level: "exploration",
             exhaustive: false,
             layer: "L2 with a corrupting channel (real server reader loop / real client transport on a 2 MiB-stack thread, raw peer), allocation counter around every delivered message",
-            rule: "run = decoding limits {default, minimal, small random} and 1-6 messages, each a well-formed request of one of 27 services (structure-aware generator of C33) or a hand-assembled Write / Call / CreateMonitoredItems / Read-response body, corrupted in flight by 0-6 mutations {bit flip, byte overwrite, 4-byte length overwrite with -1 / 0 / i32::MAX / limit+1, truncation, type-id swap, nesting prefix of depth 2..200000 of kind DataValue>Variant, Variant>Variant, DiagnosticInfo inner-info, ExtensionObject, Variant array of arrays} with frame sizes fixed up; direction client->server (server decodes) or server->client (client decodes). Oracle: no panic (hook), no process death (stack overflow / allocation failure = worker crash), peak allocation while the message is processed <= 64 x max message size + 8 MiB, nesting deeper than the decoding depth answered with an error, and the receiver still serves a fresh connection afterwards. non-trivial = at least one mutation reached the decoder; distinct = (service, mutation kinds, outcome) hash.",
+            rule: "run = decoding limits {default, minimal, small random} and 1-6 messages, each a well-formed request of one of 27 services (structure-aware generator of C33) or a hand-assembled Write / Call / CreateMonitoredItems / Read-response body, corrupted in flight by 0-6 mutations {bit flip, byte overwrite, 4-byte length overwrite with -1 / 0 / i32::MAX / limit+1, truncation, type-id swap, nesting prefix of depth 2..200000 of kind DataValue>Variant, Variant>Variant, DiagnosticInfo inner-info, ExtensionObject, Variant array of arrays; multi-dimensional arrays whose dimensions overflow, are zero, negative or disagree with the length} with frame sizes fixed up; direction client->server (server decodes) or server->client (client decodes). Oracle: no panic (hook), no process death (stack overflow / allocation failure = worker crash), peak allocation while the message is processed <= 64 x max message size + 8 MiB, nesting deeper than the decoding depth answered with an error, and the receiver still serves a fresh connection afterwards. non-trivial = at least one mutation reached the decoder; distinct = (service, mutation kinds, outcome) hash.",
             real: vec!["server TcpTransport reader loop, Chunker::decode, SupportedMessage::decode_by_object_id and every BinaryEncoder::decode it reaches", "client TransportState::process_chunk / Chunker::decode", "DecodingOptions / DepthGauge", "TcpCodec"],
             stubbed: vec!["TCP socket", "the peer that sends the corrupted bytes (raw scripted client or server built from the real Chunker / SecureChannel)"],
             assumptions: vec!["security policy None (with Sign / SignAndEncrypt the same bytes reach the decoder only from an authenticated peer; the chunk-level layer is C09)", "receiver thread stack 2 MiB (tokio worker default); the process main thread has 8 MiB", "allocation is counted process-wide, so the bound includes the harness's own buffers for the message"],
-            fault_kinds: vec!["bit_flip", "byte_overwrite", "length_overwrite", "truncate", "type_id_swap", "nest_datavalue_variant", "nest_variant_variant", "nest_diagnostic_info", "nest_extension_object", "nest_array_of_arrays", "server_to_client"],
+            fault_kinds: vec!["bit_flip", "byte_overwrite", "length_overwrite", "truncate", "type_id_swap", "nest_datavalue_variant", "nest_variant_variant", "nest_diagnostic_info", "nest_extension_object", "nest_array_of_arrays", "array_dimensions", "server_to_client"],
         }
     }
     fn runs(&self, tier: Tier) -> u64 {
@@ -117,7 +117,7 @@ impl Scenario for C02 {
             let mut muts = Vec::new();
             let hand_built = matches!(carrier, "write" | "call" | "create_items" | "read_response" | "fault_diag");
             if hand_built {
-                let kind = *rng.pick(&["nest_datavalue_variant", "nest_datavalue_variant", "nest_variant_variant", "nest_diagnostic_info", "nest_diagnostic_info", "nest_extension_object", "nest_array_of_arrays"]);
+                let kind = *rng.pick(&["nest_datavalue_variant", "nest_datavalue_variant", "nest_variant_variant", "nest_diagnostic_info", "nest_diagnostic_info", "nest_extension_object", "nest_array_of_arrays", "array_dimensions"]);
                 let depth = *rng.pick(&[2u64, 5, 9, 10, 11, 12, 64, 1000, 20_000, 100_000, 200_000]);
                 muts.push(json!({"m": kind, "depth": depth}));
             }
@@ -219,6 +219,30 @@ fn nesting(kind: &str, depth: usize) -> Vec<u8> {
                 }
             }
             b.extend_from_slice(&inner);
+        }
+        // DataValue{value: Variant(Int32 array with dimensions)} whose dimensions are hostile:
+        // `depth` selects the pattern
+        "array_dimensions" => {
+            b.push(0x01);
+            b.push(6 | 0x80 | 0x40);
+            let (len, dims): (i32, Vec<u32>) = match depth % 8 {
+                0 => (1, vec![65536, 65536]),
+                1 => (2, vec![0x8000_0001, 2]),
+                2 => (1, vec![0, 0]),
+                3 => (1, vec![0xFFFF_FFFF]),
+                4 => (2, vec![1, 2, 0xFFFF_FFFF, 0xFFFF_FFFF]),
+                5 => (0, vec![0x7FFF_FFFF, 0x7FFF_FFFF, 4]),
+                6 => (-1, vec![2]),
+                _ => (2, vec![1, 3]),
+            };
+            b.extend_from_slice(&len.to_le_bytes());
+            for i in 0..len.max(0) {
+                b.extend_from_slice(&i.to_le_bytes());
+            }
+            b.extend_from_slice(&(dims.len() as i32).to_le_bytes());
+            for d in dims {
+                b.extend_from_slice(&d.to_le_bytes());
+            }
         }
         // Variant array (type Variant, array bit) of one element that is again such an array
         _ => {
